@@ -44,7 +44,7 @@ AttrOf(id) ==
     [] OTHER -> <<>>
 
 (* ---- literal values ---- *)
-ExpLimit == 6000      \* literal exponents beyond this are "huge": not evaluated by the specification
+ExpLimit == 1200      \* literal exponents beyond this are "huge": not evaluated by the specification
 
 RECURSIVE StripZeros(_)
 StripZeros(ds) == IF ds # <<>> /\ ds[1] = 0 THEN StripZeros(Tail(ds)) ELSE ds
